@@ -163,6 +163,8 @@ fn is_digit(c: char) -> bool {
     lazy_static! {
         static ref VALID_NUMERIC_CHARS: Vec<CharRange> = convert_chars_to_range(DECIMAL_NUMBER);
     }
+    #[cfg(grex_verif)]
+    crate::verif::point("cluster.is_digit");
     VALID_NUMERIC_CHARS.iter().any(|range| range.contains(c))
 }
 
@@ -170,6 +172,8 @@ fn is_word(c: char) -> bool {
     lazy_static! {
         static ref VALID_ALPHANUMERIC_CHARS: Vec<CharRange> = convert_chars_to_range(WORD);
     }
+    #[cfg(grex_verif)]
+    crate::verif::point("cluster.is_word");
     VALID_ALPHANUMERIC_CHARS
         .iter()
         .any(|range| range.contains(c))
@@ -179,6 +183,8 @@ fn is_space(c: char) -> bool {
     lazy_static! {
         static ref VALID_SPACE_CHARS: Vec<CharRange> = convert_chars_to_range(WHITE_SPACE);
     }
+    #[cfg(grex_verif)]
+    crate::verif::point("cluster.is_space");
     VALID_SPACE_CHARS.iter().any(|range| range.contains(c))
 }
 
@@ -187,6 +193,8 @@ fn convert_repetitions(
     repetitions: &mut Vec<Grapheme>,
     config: &RegExpConfig,
 ) {
+    #[cfg(grex_verif)]
+    crate::verif::point("cluster.convert_repetitions");
     let repeated_substrings = collect_repeated_substrings(graphemes);
     let ranges_of_repetitions = create_ranges_of_repetitions(repeated_substrings, config);
     let coalesced_repetitions = coalesce_repetitions(ranges_of_repetitions);
